@@ -13,7 +13,7 @@
    always has an enabled non-stuttering step, and that no execution contains infinitely many non-stuttering steps;
    stuttering steps are spurious wake-ups and iterations of the drain / sync_and_flush poll loop. *)
 From Coq Require Import Permutation.
-From Ragc Require Import Mach Protocol Protocol_proofs.
+From Ragc Require Import Mach Protocol Protocol_proofs Consts_queue.
 Open Scope nat_scope.
 
 (* round accounting (DESIGN A.6): tokens queued + tokens the producer has still to push (whole blocks are multiples
@@ -143,3 +143,12 @@ Example oversize_ok_new_rule :
   stuckb (mkParams 2 1024 true)
          (auto_run (mkParams 2 1024 true) 200 (init (mkParams 2 1024 true) [Contig 2048 5%Z 0])) = true.
 Proof. split; vm_compute; reflexivity. Qed.
+
+(* Protocol.step's close wakes EVERY worker parked in pull (and every producer parked in push): that is the step the
+   "all workers exit after the final round" argument rests on.  The generated constant (translator/items_queue.py, re-read
+   from memory_bounded_queue.rs on every run) says close() still takes the queue lock, sets closed under it and then calls
+   notify_all on both condition variables - a notify_one there leaves all but one parked worker asleep and finalize()
+   blocked in join, on the rare schedules where several workers are already parked when close runs. *)
+Theorem queue_close_wakes_all_in_source : q_close_under_lock = 1%N /\ q_state_under_one_mutex = 1%N.
+Proof. split; reflexivity. Qed.
+Print Assumptions queue_close_wakes_all_in_source.
